@@ -857,6 +857,7 @@ func (ck0 *checker) classify(t *tmpl, first outcome) classification {
 		kinds := map[string]bool{}
 		atomicOnly := true
 		var srcs []string
+		var keptIdx []int
 		for i, rp := range reps {
 			isCall := strings.HasPrefix(rp.kind, "call:")
 			if anyCall != isCall {
@@ -880,6 +881,30 @@ func (ck0 *checker) classify(t *tmpl, first outcome) classification {
 			kinds[rp.kind] = true
 			atomicOnly = atomicOnly && rp.atomic
 			srcs = append(srcs, rp.src)
+			keptIdx = append(keptIdx, rp.idx)
+		}
+		// Sibling calls that each repair the failure (RIGHT(s, SUM(a, b) + MOD(c, d)): wrapping either call makes the
+		// +/- migration fall back to legacy_add(), which is spliced as one atom) are not the construct that loses the
+		// grouping: if wrapping an operator that contains all of them repairs it too, that operator's position is.
+		if anyCall && len(kinds) > 1 {
+			best := -1
+			for j, other := range reps {
+				if strings.HasPrefix(other.kind, "call:") {
+					continue
+				}
+				all := true
+				for _, ki := range keptIdx {
+					all = all && isAncestor(root, other.idx, ki)
+				}
+				if all && (best < 0 || other.idx > reps[best].idx) {
+					best = j // the innermost one
+				}
+			}
+			if best >= 0 {
+				kinds = map[string]bool{reps[best].kind: true}
+				atomicOnly = false
+				srcs = []string{reps[best].src}
+			}
 		}
 		ks := make([]string, 0, len(kinds))
 		for k := range kinds {
